@@ -1339,7 +1339,8 @@ PROPS["C15"] = dict(
            ("cgjkr", {"quick": 12, "thorough": 36}, ["--kind", "gen", "--par", "4"], "fast")],
     obligations=[("Tmcg.C15." + n, "full") for n in ["refresh_keeps_secret", "refresh_keeps_key", "refresh_run_keeps_secret", "rvShare_checked",
                                                    "rv_share_matches_commitments", "gen_key_matches_secret", "xqual_agree", "honest_in_xqual"]]
-                + [("Tmcg.C15." + n, "full") for n in ["qual_agree'", "honest_in_qual'", 'share_matches_vk_run', 'checkKey_run', 'share_check', 'share_check_iff', 'feldman_check', 'lagrange0_val', 'lagrange0_unique', 'interpolatePolynom_val', 'vss_reconstruct_honest', 'interpolate_secret', 'interpolate_secret_unique', 'share_matches_vk', 'checkKey_of_checks', 'vssRecv1_complains', 'vssRecv1_honest_dealer', 'genCheck4_sound', 'genReadAnswers_sound', 'genReadAnswers_answered', 'genResolveGo_share_valid', 'genResolve_qual', 'mkGrp_valid']],
+                + [("Tmcg.C15." + n, "full") for n in ["qual_agree'", "honest_in_qual'", 'share_matches_vk_run', 'checkKey_run', 'share_check', 'share_check_iff', 'feldman_check', 'lagrange0_val', 'lagrange0_unique', 'interpolatePolynom_val', 'vss_reconstruct_honest', 'interpolate_secret', 'interpolate_secret_unique', 'share_matches_vk', 'checkKey_of_checks', 'vssRecv1_complains', 'vssRecv1_honest_dealer', 'genCheck4_sound', 'genReadAnswers_sound', 'genReadAnswers_answered', 'genResolveGo_share_valid', 'genResolve_qual', 'mkGrp_valid',
+                                                          'generate_succeeds', 'key_agree', "share_matches_vk_run'", 'interpolate_run', 'binding_pair_dkg']],
     predicate=lambda line, st: (pred_cgjkr(line, st) if line.startswith(("prop.cgjkr.", "cgjkr.")) else pred_c15(line, st)),
     level_text="Theorems in Lean 4 about a model of PedersenVSS::Share/Reconstruct and GennaroJareckiKrawczykRabinDKG::Generate as synchronous rounds over n parties with coin lists and deviation scripts: "
                "for ALL scripts of at most t other parties every honest party ends with the same QUAL and no honest party is disqualified; shares of the committed polynomials satisfy the share equations (iff opening), "
@@ -1350,10 +1351,10 @@ PROPS["C15"] = dict(
                "Run level: for all scripts of at most t others, every honest party that finishes without a reconstruction has g^x_i = v_i and CheckKey true. "
                "The adaptively secure classes (CGJKR RVSS/ZVSS/DKG): a refresh (sum of zero-sharings of the admitted dealers) leaves the secret interpolated from every (t+1)-subset and the key unchanged, on the abstract algebra and on the states the model's last refresh round computes; "
                "agreement on the qualified set of the key sharing for all scripts; shares match the verification values; the key is the image of the interpolated secret; real Generate+Refresh runs (28 deviation kinds) against the model and an independent predicate. "
-               "Partial: Generate-succeeds and key agreement for runs WITH reconstruction are checked by the predicate only.",
+               "Run level WITH reconstruction (step 4(c) rebuilding the polynomials of deviating parties), for all scripts of at most t others and under the explicit binding hypothesis on the commitments occurring in the run: every honest party's Generate returns true, all honest parties end with the same QUAL, public key and verification keys, CheckKey holds everywhere and any t+1 honest shares interpolate to the discrete logarithm of the key (generate_succeeds, key_agree, share_matches_vk_run', interpolate_run).",
     level_note=LEVEL_NOTE + " The reliable broadcast is abstracted to a consistent per-sender FIFO (property C14); synchrony as in the property's quantifier; n < 2^64.",
     assumptions=["synchronous-round abstraction of the broadcast and of time-outs (a late message = a missing message)",
-                 "partial: Generate-succeeds and key agreement for runs with reconstruction: predicate on real runs only; the zero constant term of an admitted refresh dealer is a hypothesis (binding of the commitments)",
+                 "explicit binding hypothesis (BindingHypG: the in-range openings of a dealer's Pedersen commitments that occur in the run lie on one polynomial of degree <= t; a violation yields log_g h, binding_pair_dkg) for the run-level theorems with reconstruction; the zero constant term of an admitted refresh dealer is a hypothesis of the same kind",
                  "the harness uses at most min(t, (n-1)/3) deviating parties where the real reliable broadcast is involved"],
 )
 
